@@ -21,8 +21,8 @@ EARLY = ('    assert!(!model::any_matched() || model::any_skipped(), "a match wa
          '    kani::cover!(model::any_matched() && model::cut() < {n});\n')
 
 
-def par_h(term, ty, n, t, c):
-    return scalar_harness("c10", term, ty, "slice", n, t, c, extra_post=EARLY.format(n=n), tag="exit")
+def par_h(term, ty, n, t, c, src="slice"):
+    return scalar_harness("c10", term, ty, src, n, t, c, extra_post=EARLY.format(n=n), tag="exit")
 
 
 def seq_h(term, ty, n):
@@ -98,6 +98,7 @@ def harnesses(tier, seed):
         for ty, term in (("MF", "find"), ("FMF", "find"), ("FLF", "find")):
             for c in (1, 2):
                 hs.append(par_h(term, ty, 3 if (ty == "FLF" and c == 2) else 4, 2, c))
+        hs += [par_h("find", "MF", 4, 2, 1, src="sched"), par_h("find", "FMF", 4, 2, 2, src="sched")]  # unknown length: HasMore::Maybe
         hs += [seq_h("find", "MF", 3), seq_h("any", "FMF", 3), seq_h("find", "FLF", 3)]
         hs += [endless_h("find", 1), endless_h("find", 2), endless_h("first", 1)]
         hs += [drain_h("find", "MF", "iterf", 4, 1), drain_h("find", "M", "iterf", 4, 2), drain_h("find", "FMF", "iterf", 4, 1),
